@@ -863,7 +863,7 @@ def correlation_spectrum(x1, x2, Fs=2 * np.pi, norm=False):
     x2 = x2 - np.mean(x2)
     x1_f = fftpack.fft(x1)
     x2_f = fftpack.fft(x2)
-    D = np.sqrt(np.sum(x1 ** 2) * np.sum(x2 ** 2))
+    D = np.sqrt(np.sum(x1 ** 2)) * np.sqrt(np.sum(x2 ** 2))
     n = x1.shape[0]
 
     ccn = ((np.real(x1_f) * np.real(x2_f) +
